@@ -306,8 +306,10 @@ CLAIMED = {
              "autoshape_types against MSO_AUTO_SHAPE_TYPE and against presetShapeDefinitions.xml (guide names, order, defaults); "
              "the add/read-back path of auto shapes through a:prstGeom/@prst. All obligations are enumerated and decided; the "
              "level is 'other' rather than 'proof' only because seven genuine disagreements of the pinned tree are carried as "
-             "known findings (duplicate MS-API tokens, the definitions file's upArrow erratum). NOT decided yet: R20.5 chart-type "
-             "writer/inspector inverse; rendering of presets.",
+             "known findings (duplicate MS-API tokens, the definitions file's upArrow erratum). R20.5: for each of the 29 writable chart types the writer's "
+             "template (specialised to the type) is handed to an interpreter of PlotTypeInspector's own code (Python subset: "
+             "xpath with child steps and attribute predicates, declared child/attribute access, dict dispatch), which must return "
+             "that type. NOT decided: rendering of presets.",
         technique="static analysis: constant folding of enum/table literals compared with XSD enumerations and the shipped preset "
                   "definitions; typed interprocedural flow from Enum.to_xml to template attribute positions",
         design="DESIGN.md §4 C20",
